@@ -351,7 +351,12 @@ class Check(common.Check):
     LEAN_DIRS = ['Sc3Verif/C17']
     THEOREMS = ['Sc3Verif.C17.' + t for t in (
         'emitted_conforms', 'embedL_pairs', 'bind_one_bundle_in_order', 'unbound_sends_each',
-        'bind_nested_appends', 'bind_raises_sends_nothing', 'bind_preserves_issue_order')]
+        'bind_nested_appends', 'bind_raises_sends_nothing', 'bind_preserves_issue_order',
+        'synth_create_uses_own_id', 'group_create_uses_own_id', 'next_node_id_is_allocator_id',
+        'buffer_create_uses_own_id', 'consecutive_create_uses_own_ids',
+        'buffer_free_once_and_returns_id', 'buffer_double_free_silent', 'free_all_frees_every_id_once',
+        'node_cmds_use_object_id', 'buffer_cmds_use_object_bufnum', 'bus_cmds_use_object_index',
+        'corewf_step', 'corewf_init', 'add_actions_table_ok')]
     N_QUICK = 400
     N_THOROUGH = 6000
     ASSUMPTIONS = []
